@@ -282,17 +282,26 @@ def check_set_profiles(fp, transcript_id, transcript_features, transcript_region
 # ---- read profiles
 def expected_overlapping_profile(known, read_features, mapped_region, delta):
     """gene profile for OverlappingFeaturesProfileConstructor with comparator equal_ranges(delta) and absence=contains.
-    Precondition (checked by caller): no two known features are within delta of the same read feature."""
+    When several known features are within delta of one read feature, the one(s) that are no further from it than any rival at BOTH
+    ends must be present; for a strictly worse one the entry is left open (None).
+    Precondition (checked by caller): no known feature is within delta of two read features."""
     prof = []
     for f in known:
-        matched = any(abs(f[0] - r[0]) <= delta and abs(f[1] - r[1]) <= delta for r in read_features)
-        if matched:
-            prof.append(1)
+        rs = [r for r in read_features if abs(f[0] - r[0]) <= delta and abs(f[1] - r[1]) <= delta]
+        if rs:
+            r = rs[0]
+            rivals = [g for g in known if g != f and abs(g[0] - r[0]) <= delta and abs(g[1] - r[1]) <= delta]
+            best = all(abs(f[0] - r[0]) <= abs(g[0] - r[0]) and abs(f[1] - r[1]) <= abs(g[1] - r[1]) for g in rivals)
+            prof.append(1 if best else None)
         elif mapped_region[0] <= f[0] and f[1] <= mapped_region[1]:
             prof.append(-1)
         else:
             prof.append(0)
     return prof
+
+
+def profile_agrees(got, exp):
+    return len(got) == len(exp) and all(e is None or g == e for g, e in zip(got, exp))
 
 
 def expected_nonoverlapping_profile(known, blocks):
